@@ -146,3 +146,17 @@ def c12_7(ctx, r):
     from .c05 import ids_persisted_when_changed
 
     ids_persisted_when_changed(ctx, r, "C12.7")
+
+
+@rule(P, "C12.8", "T9+T1", "the scheduler's answer is parsed conservatively and completely - also when it is empty (no batch left: the manual recovery case)", min_obligations=6)
+def c12_8(ctx, r):
+    from .c18 import c18_3
+
+    c18_3(ctx, r)
+
+
+@rule(P, "C12.9", "T8", "the persisted active list is replaced by the round's outstanding ids (ended batches leave it, so forced completion can fire)", min_obligations=6)
+def c12_9(ctx, r):
+    from .c06 import c06_5
+
+    c06_5(ctx, r)
